@@ -30,6 +30,7 @@ RULE = (
     "every stretched gate under its own name and all other entries untouched, with update=False the caller's "
     "dictionary is unchanged.  Non-trivial = a mixed-kind signature with a boundary value (integral float / "
     "integral FLOAT Constant to INT, non-finite float), or a stretched set with >= 2 gates of different arity."
+    " Parameter names are a0, a1, ... and, in a third of the cases, one of self / args / kwargs / name (ordinary Jaqal identifiers that are special to Python)."
 )
 ASSUMPTIONS = [
     "a non-finite float offered to FLOAT/NONE is not judged (the property says nothing about it); offered to INT, QUBIT, REGISTER it must be rejected with JaqalError",
